@@ -326,6 +326,12 @@ def frame_layers(F, S):
 
 def check(F, run, tier):
     S = Summaries(F)
+    # refusals at the edge of an integer type's range are exact (neither the largest representable value is turned away nor
+    # the first unrepresentable one let through), wherever in the library they are made
+    from ..rules_stream import capacity_refusals_exact
+    _oc, _nc = capacity_refusals_exact(F, S, ["/src/"])
+    run.add(_oc)
+    run.floor("capacity-refusals", _nc, 33)
     run.declined = DECLINED
     run.explanation = (
         "Static analysis of the writers' narrowing conversions (R-NARROW): every explicit cast, bit-field store and "
